@@ -13,7 +13,9 @@ Record fobj := mkF { fV : bool; fIdent : bool; fDW : Z; fW : list witem;
 
 (** one text object: index of its font object, laid out vertically?, a string operand had an odd number of bytes,
     the TJ array as written, the laid-out glyphs (glyph id, (font advance, laid-out advance)) *)
-Record tobj := mkT { tF : Z; tV : bool; tOdd : bool; tEls : list tjel; tGs : list (Z * (Z * Z)) }.
+(* tPosBad: the text matrix at the first TJ of the text object (read from the content stream by the harness) is not the span's
+   placement m . Translate(x, y) . Shear(fauxItalic, 0) within 1e-6 (compared by the harness in binary64) *)
+Record tobj := mkT { tF : Z; tV : bool; tOdd : bool; tEls : list tjel; tGs : list (Z * (Z * Z)); tPosBad : bool }.
 
 Inductive case18 :=
 | KSub (hist codes final : list Z)
@@ -90,7 +92,7 @@ Definition judge_text (upem : Z) (s : sub) (ids : list Z) (fonts : list fobj) (t
         let bound := upem * (n_unadj gs + 4 * n_adj gs) in
         ((tF t <? 0) || (bound <? 2 * Z.abs err), negb (Bool.eqb (tV t) (fV f)))
     end in
-  (bit tieT 8, bit propCodes 4 + bit propPen 8 + bit propEnc 16, bit (0 <? n_adj gs) 8).
+  (bit tieT 8, bit propCodes 4 + bit propPen 8 + bit propEnc 16 + bit (tPosBad t) 4096, bit (0 <? n_adj gs) 8).
 
 Definition judge (c : case18) : list Z :=
   match c with
